@@ -134,5 +134,54 @@ def access_probes():
     return out
 
 
+def call_matrix():
+    """Systematic call shapes: parameter usage x argument kind x call context x number of call sites x
+    tail position.  (inlining decisions, argument aliasing/copying, tail calls, unused parameters)"""
+    out = []
+    param_use = {
+        "ro": "    d1.Setting = n + k\n",
+        "overwritten": "    while n > 0:\n        d1.Setting = n + k\n        n = n - 1\n",
+        "aug": "    n += 1\n    d1.Setting = n + k\n",
+        "unused_mid": "    d1.Setting = k\n",
+    }
+    arg_kind = {
+        "const": ("", "3"),
+        "var_single_use": ("count = d0.Setting\n", "count"),
+        "var_multi_use": ("count = d0.Setting\ndb.Mode = count\n", "count"),
+        "expr": ("count = d0.Setting\n", "count + 1"),
+        "read": ("", "d0.Setting"),
+    }
+    for pu, body in param_use.items():
+        for ak, (pre, arg) in arg_kind.items():
+            for ctx in ("straight", "loop"):
+                for ncalls in (1, 2):
+                    name = f"callm:{pu}:{ak}:{ctx}:{ncalls}"
+                    src = HDR + "def blink(n, m, k):\n" + body + "\n" + pre
+                    call = f"blink({arg}, 7, 2)\n"
+                    if ctx == "loop":
+                        src += "c = 0\nwhile c < 3:\n    c += 1\n    " + call + "    yield_()\n"
+                        if ncalls == 2:
+                            src += "blink(1, 2, 3)\n"
+                    else:
+                        src += call + ("blink(1, 2, 3)\n" if ncalls == 2 else "") + "db.Open = 1\n"
+                    out.append((name, src))
+    # value-returning variants
+    for pu in ("ro", "overwritten"):
+        for ncalls in (1, 2):
+            body = "    t = n * 2\n" if pu == "ro" else "    n = n * 2\n    t = n\n"
+            src = HDR + "def f(n):\n" + body + "    return t + 1\n\nx = d0.Setting\nc = 0\nwhile c < 2:\n    c += 1\n    db.Setting = f(x)\n" + ("db.Mode = f(5)\n" if ncalls == 2 else "")
+            out.append((f"callm:ret:{pu}:{ncalls}", src))
+    # tail positions
+    for callee_sites in (1, 2):
+        for caller_sites in (1, 2):
+            src = HDR + "def show(x):\n    d0.Setting = x\n\ndef step(x):\n    d1.Setting = x\n    show(x + 1)\n\n"
+            src += "step(d2.Setting)\n" + ("step(10)\n" if caller_sites == 2 else "") + ("show(5)\n" if callee_sites == 2 else "") + "db.Open = 1\n"
+            out.append((f"callm:tail:callee{callee_sites}:caller{caller_sites}", src))
+            src2 = HDR + "def val(x):\n    return x * 2\n\ndef step(x):\n    d1.Setting = x\n    return val(x + 1)\n\n"
+            src2 += "db.Setting = step(d2.Setting)\n" + ("db.Mode = step(10)\n" if caller_sites == 2 else "") + ("db.On = val(5)\n" if callee_sites == 2 else "")
+            out.append((f"callm:tailret:callee{callee_sites}:caller{caller_sites}", src2))
+    return out
+
+
 def all_probes():
-    return comparison_probes() + range_probes() + boolean_probes() + arithmetic_probes() + call_probes() + access_probes()
+    return comparison_probes() + range_probes() + boolean_probes() + arithmetic_probes() + call_probes() + access_probes() + call_matrix()
